@@ -399,11 +399,12 @@ def r3(ctx, r):
     h = fn(ctx, HS, "handleIncomingData", HSF)
     # appends to the session buffer
     apps = [e for e in h.stmts() if e.node.get("k") == "opcall" and e.node.get("op") == "+=" and show(strip_casts(e.node["args"][0])).endswith(".buffer")]
-    capb = [b for b in h.blocks.values() if b.cond is not None and common.cmp_parts(b.cond) and "MAX_BUFFER_SIZE" in show(b.cond)]
+    # the test of the ACCUMULATED size against the buffer limit (other tests may mention the constant too, e.g. the 413 decision)
+    capb = [b for b in h.blocks.values() if b.cond is not None and (lambda co: co is not None and "buffer.size()" in show(co[1]))(common.cmp_oriented(b.cond, lambda x: "MAX_BUFFER_SIZE" in show(x)))]
     r.instance()
     ok = len(apps) == 1 and len(capb) == 1
     if ok:
-        op, l, rr = common.cmp_parts(capb[0].cond)
+        op, l, rr = common.cmp_oriented(capb[0].cond, lambda x: "MAX_BUFFER_SIZE" in show(x))
         fm = show(l)
         ok = op in (">", ">=") and "buffer.size()" in fm and "dataStr.size()" in fm and dominated_by_edge(h, apps[0], capb[0], 1, eh=False)
     r.expect(ok, h, apps[0] if apps else None, "buffer append uncapped", "the per-connection buffer is appended to on a path that did not pass `buffer.size() + incoming > MAX_BUFFER_SIZE` (a peer that never completes a request grows it without bound)",
@@ -817,22 +818,61 @@ def r8(ctx, r):
                     out.append((b, key_of(a.get("obj"))))
         return out
     th, tp = chunk_tests(h), chunk_tests(p)
+    # a substring test is the defect: `xchunkedx`, `chunked, gzip` (chunked not final) and a later `identity` line all "contain" it
+    for (f, lst) in ((h, th), (p, tp)):
+        for (b, v) in lst:
+            r.instance()
+            r.fail(f, b.elems[-1] if b.elems else None, "transfer coding recognised by substring", "%s recognises the chunked coding with `%s.find(\"chunked\")`: `Transfer-Encoding: xchunkedx`, `chunked, gzip` (chunked not the "
+                   "final coding) and repeated field lines are framed by guesswork instead of being rejected" % (last(f.name), v))
+    # the framing decision: one helper over ALL Transfer-Encoding field lines, exact token comparison, anything else → 400
+    helpers = [g for g in ctx.fb().methods_of(HS) if g.ok and any(x.get("k") == "str" and x.get("v") == "chunked" for x in g.nodes.values()) and g not in (h, p)]
     r.instance()
-    if not r.expect(len(th) == 1 and len(tp) == 1, p, None, "chunked recognition", "framing and request construction do not both test for the `chunked` coding (framing: %d, construction: %d)" % (len(th), len(tp)),
-                    okdesc="both stages test find(\"chunked\")"):
-        return
-    for (f, (b, v)) in ((h, th[0]), (p, tp[0])):
-        low = [e for e in f.stmts() if e.node.get("k") == "call" and last(e.node.get("callee", "")) == "transform" and v + ".begin()" in show(e.node) and "tolower" in show(e.node)]
-        r.instance()
-        r.expect(bool(low) and any(search(f, e, lambda x: x.block is b, eh=False) is not None for e in low), f, None, "case folding", "%s tests for `chunked` without lower-casing the value first" % last(f.name), okdesc="%s: value lower-cased before the test" % last(f.name))
+    if len(helpers) != 1:
+        raise AnalysisBroken("HttpServer: transfer-coding helper not identified (%d candidates)" % len(helpers))
+    H = helpers[0]
+    eqs = [x for x in H.nodes.values() if x.get("k") in ("opcall", "bin") and x.get("op") == "==" and any(y.get("k") == "str" and y.get("v") == "chunked" for y in walk(x))]
+    finds = [x for x in H.nodes.values() if x.get("k") == "mcall" and last(x.get("callee", "")) in ("find", "rfind", "compare", "starts_with", "ends_with") and any(y.get("k") == "str" and y.get("v") == "chunked" for y in walk(x))]
+    lower = any(x.get("k") == "call" and last(x.get("callee", "")) == "transform" and "tolower" in show(x) for x in H.nodes.values())
+    split = any(x.get("k") == "call" and last(x.get("callee", "")) == "getline" and any(y.get("k") == "char" and y.get("cv") == 44 for y in walk(x)) for x in H.nodes.values())
+    rets = common.returns(H)
+    single = any(any(const_value(strip_casts(q[2])) == 1 and q[0] == "==" for q in common.cmp_both(y)) for e in rets for y in walk(e.node) if y.get("k") in ("bin", "opcall"))
+    r.expect(len(eqs) == 1 and not finds and lower and split and single, H, None, "transfer coding helper", "%s does not decide 'the coding list is exactly the single token chunked' (comma-split: %s, lower-cased: %s, exact "
+             "comparison: %d, substring tests: %d, single-coding test: %s)" % (last(H.name), split, lower, len(eqs), len(finds), single), okdesc="%s: comma-split, case-folded, == \"chunked\", exactly one coding" % last(H.name))
+    calls = [e for e in h.stmts() if e.node.get("k") in ("call", "mcall") and e.node.get("callee") == H.name]
+    r.instance()
+    if len(calls) != 1:
+        raise AnalysisBroken("handleIncomingData: %d calls of %s" % (len(calls), last(H.name)))
+    argv = key_of(strip_views(calls[0].node["args"][0]))
+    accum = [e for e in h.stmts() if e.node.get("k") == "opcall" and e.node.get("op") == "+=" and key_of(e.node["args"][0]) == argv]
+    # every Transfer-Encoding line feeds the list: the accumulation sits in the header loop behind the field-name test only
+    okacc = len(accum) == 1 and any(any(x.get("k") == "str" and x.get("v") == "transfer-encoding" for x in walk(c)) and t for (c, t) in dominating_facts(h, accum[0]))
+    r.expect(okacc, h, accum[0] if accum else calls[0], "transfer coding list", "the argument of %s is not the concatenation of every Transfer-Encoding field line: with repeated lines framing looks at one of them only" % last(H.name),
+             okdesc="all Transfer-Encoding lines form one list")
+    # the decision variable, the rejection of everything else, and its use as THE decoding decision
+    dv = [e for e in h.stmts() if asg(e.node) and any(x is calls[0].node for x in walk(asg(e.node)[1]))]
+    r.instance()
+    okrej = False
+    flag = key_of(asg(dv[0].node)[0]) if dv else None
+    if flag:
+        for b in h.blocks.values():
+            if b.cond is not None and key_of(strip_casts(b.cond).get("v") if strip_casts(b.cond).get("k") == "un" else None) == flag and search(h, dv[0], lambda x, b=b: x.block is b, eh=False) is not None:
+                arm = _reach_until_ret(h, b.succs[0])
+                if any(x.kind == "stmt" and x.node.get("k") == "mcall" and last(x.node.get("callee", "")) == "sendErrorResponse" and const_value(strip_casts(x.node["args"][1])) == 400 for x in arm) and \
+                        any(x.kind == "stmt" and x.node.get("k") == "ret" for x in arm):
+                    okrej = True
+    r.expect(okrej, h, dv[0] if dv else None, "unsupported transfer coding framed", "a Transfer-Encoding that is not exactly `chunked` does not end in 400 + return: its body length is guessed", okdesc="Transfer-Encoding ≠ chunked → 400")
     dec = [e for e in p.stmts() if asg(e.node) and show(strip_casts(asg(e.node)[0])) == "req.body" and "parseChunkedBody" in show(asg(e.node)[1])]
     r.instance()
-    ok = len(dec) == 1 and dominated_by_edge(p, dec[0], tp[0][0], 0, eh=False)
-    if ok:
-        # the handler is invoked only after the decode point or on the not-chunked edge
+    bparams = [p_["n"] for p_ in p.params if p_["t"] == "bool"]
+    okdec = len(dec) == 1 and len(bparams) == 1 and any(key_of(c) == bparams[0] and t for (c, t) in dominating_facts(p, dec[0]))
+    if okdec:
         plain = [e for e in p.stmts() if asg(e.node) and show(strip_casts(asg(e.node)[0])) == "req.body" and e is not dec[0]]
-        ok = len(plain) == 1 and elem_dominates(p, plain[0], dec[0], eh=False)
-    r.expect(ok, p, dec[0] if dec else None, "chunked body not decoded", "a request that framing recognised as chunked reaches Request::body still chunk-encoded", okdesc="chunked ⇒ req.body = parseChunkedBody(…)")
+        okdec = len(plain) == 1 and elem_dominates(p, plain[0], dec[0], eh=False)
+        # the argument handed over is the framing decision
+        lams = [lf for (ln, lf) in h.lambdas if any(x.get("k") == "mcall" and x.get("callee") == p.name for x in lf.nodes.values())]
+        okdec = okdec and bool(lams) and all(any(key_of(strip_casts(x["args"][-1])) == flag for x in lf.nodes.values() if x.get("k") == "mcall" and x.get("callee") == p.name) for lf in lams)
+    r.expect(okdec, p, dec[0] if dec else None, "chunked body not decoded", "the decoding decision of processHttpRequest is not the framing decision of handleIncomingData (a bool handed over with the request): a request framed as "
+             "chunked can reach Request::body still chunk-encoded, or a body framed by Content-Length be chunk-decoded", okdesc="decode ⇔ framing decision (passed along); plain body assigned first")
     # chunk data is followed by CRLF: checked by both siblings before the position moves past it
     for (f_, buf, base, label) in ((fn(ctx, HS, "findChunkedRequestEnd", HSF), "data", "pos", "server"), (fn(ctx, HC, "advanceChunked", HCF), "buf", "dataStart", "client")):
         advs = [e for e in f_.stmts() if (e.node.get("k") == "bin" and e.node.get("op") == "+=" and key_of(e.node["lhs"]) in (base, "st.pos") and "chunkSize" in show(e.node["rhs"])) or
